@@ -35,7 +35,7 @@
 #define assert_double_equal_with_message(tried, expected, ...) \
         (*cgreen::get_test_reporter()->assert_true)(cgreen::get_test_reporter(), FILENAME, __LINE__, doubles_are_equal((tried), (expected)), __VA_ARGS__)
 #define assert_double_not_equal_with_message(tried, expected, ...) \
-        (*cgreen::get_test_reporter()->assert_true)(cgreen::get_test_reporter(), FILENAME, __LINE__, doubles_are_equal((tried), (expected)), __VA_ARGS__)
+        (*cgreen::get_test_reporter()->assert_true)(cgreen::get_test_reporter(), FILENAME, __LINE__, !doubles_are_equal((tried), (expected)), __VA_ARGS__)
 #define assert_string_equal_with_message(tried, expected, ...) \
         (*cgreen::get_test_reporter()->assert_true)(cgreen::get_test_reporter(), FILENAME, __LINE__, strings_are_equal((tried), (expected)), __VA_ARGS__)
 #define assert_string_not_equal_with_message(tried, expected, ...) \
@@ -70,7 +70,7 @@
 #define assert_double_equal_with_message(tried, expected, ...) \
         (*get_test_reporter()->assert_true)(get_test_reporter(), FILENAME, __LINE__, doubles_are_equal((tried), (expected)), __VA_ARGS__)
 #define assert_double_not_equal_with_message(tried, expected, ...) \
-        (*get_test_reporter()->assert_true)(get_test_reporter(), FILENAME, __LINE__, doubles_are_equal((tried), (expected)), __VA_ARGS__)
+        (*get_test_reporter()->assert_true)(get_test_reporter(), FILENAME, __LINE__, !doubles_are_equal((tried), (expected)), __VA_ARGS__)
 #define assert_string_equal_with_message(tried, expected, ...) \
         (*get_test_reporter()->assert_true)(get_test_reporter(), FILENAME, __LINE__, strings_are_equal((tried), (expected)), __VA_ARGS__)
 #define assert_string_not_equal_with_message(tried, expected, ...) \
